@@ -384,11 +384,25 @@ func (w *world) checkFinalModel(model map[string]uint64, parseCheck bool) {
 func (w *world) compareParse(v *view) {
 	simrt.ResetSchedTick()
 	pf, err := parseBounded(v.path, v.last)
+	d := v.dec
+	if _, total := err.(*totalityError); err != nil && !total {
+		seen := map[string]string{}
+		for n := range d.Counts {
+			x := refstack.Expand(n)
+			if o, dup := seen[x]; dup {
+				// two stored names expand to the same text: the documentation
+				// does not say which wins, and Parse calls the file corrupt
+				w.s.Logf("parse", "not judged: %q and %q expand to the same name", short(o), short(n))
+				w.c.Note("expanded-names-collide")
+				return
+			}
+			seen[x] = n
+		}
+	}
 	if err != nil {
 		w.fail("parse-rejects-wellformed", "Parse rejects %s which the independent decoder accepts: %v", filepath.Base(v.path), err)
 		return
 	}
-	d := v.dec
 	if len(pf.Meta) != len(d.Meta) {
 		w.fail("parse-meta", "Parse metadata %v, independent decoder %v", pf.Meta, d.Meta)
 		return
